@@ -62,8 +62,16 @@ NOf(X, el) == IF el \in DOMAIN X.nsteps THEN X.nsteps[el] ELSE 0
 DefOf(X, el, p) == IF el \in DOMAIN X.defd /\ p \in DOMAIN X.defd[el] THEN X.defd[el][p] ELSE TRUE
 
 \* repairs that can be switched on (RepairedHolds of Consumers_MC: with all of them no clause fires)
+\*   bgfinish  json.py background(): finish_current_scenario(); current_scenario = None          (DESIGN section 8 #12)
+\*   argsnone  matchers.py MatchWithError: arguments = []                                        (#11)
+\*   rbdedup   json_parser.py: a scenario read back does not get the background steps again      (#13)
+\*   dryundef  model.py Scenario.run: a dry run reports undefined steps with match(NoMatch) + result   (#4; generator side)
 NoFix  == [bgfinish |-> FALSE, argsnone |-> FALSE, rbdedup |-> FALSE]
 AllFix == [bgfinish |-> TRUE, argsnone |-> TRUE, rbdedup |-> TRUE]
+\* THE CODE AS IT IS in /repo: switch a field to TRUE in the commit that repairs the defect, so that (S) keeps following
+\* the code (the DIVERGE count of props/c15.py shows when this was forgotten)
+CodeFix == [bgfinish |-> FALSE, argsnone |-> FALSE, rbdedup |-> FALSE]
+CodeGen == [dryundef |-> FALSE]
 
 \* ======================================================================= JsonFmt  (formatter/json.py)
 JStep(pos) == [pos |-> pos, match |-> FALSE, status |-> ""]
